@@ -376,12 +376,21 @@ impl<F: Write + Seek> Directory<F> {
                     predecessor_parent_id,
                     predecessor_left,
                 )?;
+                if predecessor_left != consts::NO_STREAM {
+                    self.set_black(predecessor_left)?;
+                }
                 self.set_left_sibling(predecessor_id, left_sibling)?;
             }
             self.set_right_sibling(predecessor_id, right_sibling)?;
             predecessor_id
         };
-        // TODO: recolor nodes
+        // We don't rebalance the tree, but an entry that moves to a new place
+        // in it is colored black, so that a red entry never ends up next to
+        // another red one (MS-CFB section 2.6.4 forbids that, and files
+        // written by other implementations do contain red entries).
+        if replacement_id != consts::NO_STREAM {
+            self.set_black(replacement_id)?;
+        }
 
         // Remove the entry.
         if link_owner_id == parent_id {
@@ -399,6 +408,15 @@ impl<F: Write + Seek> Directory<F> {
             self.set_right_sibling(link_owner_id, replacement_id)?;
         }
         self.free_dir_entry(stream_id)?;
+        Ok(())
+    }
+
+    fn set_black(&mut self, stream_id: u32) -> io::Result<()> {
+        if self.dir_entry(stream_id).color != Color::Black {
+            self.dir_entry_mut(stream_id).color = Color::Black;
+            let mut sector = self.seek_within_dir_entry(stream_id, 67)?;
+            sector.write_all(&[Color::Black.as_byte()])?;
+        }
         Ok(())
     }
 
